@@ -41,14 +41,14 @@ def gate_cond_swapped(rw):
 
 
 def gate_early_exit(rw):
-    rw.sub("js/util.go", "\t\tif m.o.minVersion(2020) {\n\t\t\tif nullishExpr, ok := toNullishExpr(expr); ok {\n",
-           "\t\tif nullishExpr, ok := m.nullish(expr); ok {\n\t\t\t{\n")
+    rw.sub("js/util.go", "\t\tif m.o.minVersion(2020) {\n\t\t\tif nullishExpr, ok := toNullishExpr(expr, optChain); ok {\n",
+           "\t\tif nullishExpr, ok := m.nullish(expr, optChain); ok {\n\t\t\t{\n")
     rw.append("js/util.go", """
-func (m *jsMinifier) nullish(expr *js.CondExpr) (js.IExpr, bool) {
+func (m *jsMinifier) nullish(expr *js.CondExpr, optChain bool) (js.IExpr, bool) {
 	if !m.o.minVersion(2020) {
 		return nil, false
 	}
-	return toNullishExpr(expr)
+	return toNullishExpr(expr, optChain)
 }
 """)
     rw.gofmt("js/util.go")
@@ -128,8 +128,8 @@ def ctl_gate_version_lowered(rw):
 
 def ctl_gate_collapsed(rw):
     # the seeded C16-m1 shape: the producer moves in front of the gate in the same condition
-    rw.sub("js/util.go", "\t\tif m.o.minVersion(2020) {\n\t\t\tif nullishExpr, ok := toNullishExpr(expr); ok {\n",
-           "\t\t{\n\t\t\tif nullishExpr, ok := toNullishExpr(expr); ok && m.o.minVersion(2020) {\n")
+    rw.sub("js/util.go", "\t\tif m.o.minVersion(2020) {\n\t\t\tif nullishExpr, ok := toNullishExpr(expr, optChain); ok {\n",
+           "\t\t{\n\t\t\tif nullishExpr, ok := toNullishExpr(expr, optChain); ok && m.o.minVersion(2020) {\n")
 
 
 def ctl_gate_negated(rw):
